@@ -99,12 +99,13 @@ Definition run_tc (op : Z) (a : args) : args :=
               Ok [sp; fst p; [tc_packet_len u]])
   (* extended history: construction path + parameters in list 0, data in list 1, operations in
      lists 2..; every operation leaves its observation; closing sequence of views and packs; the
-     last list is the number of caller-owned buffers the library changed (always 0 in the model) *)
+     last list: number of caller-owned buffers the library changed, number of octet strings the library
+     had handed out earlier (pack results, views) that changed afterwards (0, 0 in the model) *)
   | 520 => ret (fun r => r)
              (do t <- tcx_make (lst 0 a) (lst 1 a);
               (* the untouched twin the adapter builds from the same arguments has the same value *)
               let '(_, outs) := tcx_run t t (map tcx_op_of (skipn 2 a) ++ tcx_closing) in
-              Ok (flat_map tcx_obs outs ++ [[0]]))
+              Ok (flat_map tcx_obs outs ++ [[0; 0]]))
   (* Spec *)
   | 550 => [[0]; tc_layout (int 0 0 a) (int 0 1 a) (int 0 2 a) (int 0 3 a) (int 0 4 a) (int 0 5 a) (lst 1 a)]
   | _ => [[1; 97]]
